@@ -7,7 +7,7 @@ MC : specs/ws/WsClose.tla - one endpoint against an arbitrary peer: local close,
      properties / liveness: AtMostOneCloseFrame, NoDataAfterClose, EchoesPeerCode,
      BothClosedTearsDown, ClosedIsNotified, NotifiedAtMostOnce / OnceFinal / WithPeerCode,
      WriteAfterCloseFails, CloseTerminates, EventuallyNotified.
-S2C: every action sequence up to length L (quick 3, thorough 5) and TLC simulation walks of depth 14 replayed on a real WebSocketHandler (server) and a real
+S2C: every action sequence up to length L (quick 3, thorough 4 with every close variant) and TLC simulation walks of depth 14 replayed on a real WebSocketHandler (server) and a real
      WebSocketClientConnection (client) over MemStreams, the harness owning the virtual clock; the
      projection (close frames written and their code, data after close, pings, stream closed,
      close notifications with code / reason, deliveries, exception of write_message) is compared
@@ -202,7 +202,7 @@ def run(ctx):
     ctx._phase("mc", t0)
     t0 = time.time()
     paths = ctx.gen_paths("ws", "Gen_WsClose", ctx.pick("Gen_WsClose.cfg", "Gen_WsCloseFull.cfg"),
-                          overrides=ctx.pick({"L": 3, "MaxMsgs": 1}, {"L": 5, "MaxMsgs": 2}))
+                          overrides=ctx.pick({"L": 3, "MaxMsgs": 1}, {"L": 4, "MaxMsgs": 2}))
     ctx._phase("gen", t0)
     t0 = time.time()
     ctx.replay(expand(paths, ctx.seed), replayer)
@@ -222,7 +222,7 @@ def run(ctx):
     ctx.cov["trusted_base"] += ["harness/ws_driver.py frame plumbing", "virtual clock: env.advance to the specification's next deadline"]
     ctx.cov["rule"] = ("paths: every sequence of close / write / msg / pong / peerclose / eof / resume / advance of length <= %d per "
                        "(role, ping, async) configuration, plus TLC simulation walks of depth 14 and random recorded scenarios; "
-                       "distinct = distinct (config, segmentation variant, action sequence)" % ctx.pick(3, 5))
+                       "distinct = distinct (config, segmentation variant, action sequence)" % ctx.pick(3, 4))
 
 
 def replay(ctx, rec):
